@@ -158,7 +158,7 @@ EXTRA_TECH = {
     "C15": " + asynchronous nodes rewired while they hold data (random and directed), every form of emit_on; destroy(streams=selection) in the model (destroySel, 5 theorems: empty selection is a no-op, a selection is its disconnects, exactly the selected edges go) and in the histories",
     "C16": " + failing awaitable consumers must reach the emitter; sink_to_textfile with closed / failing files; exception type of the failing functions as a case parameter (StopIteration, KeyError, OSError, falsy exception); keys whose __eq__/__hash__ raise inside unique",
     "C17": " + raising consumers, stop/start, a second source over the same directory",
-    "C18": " + tailing from_end on a file with a real read position; poll-before-downstream-done; real-socket from_tcp sample (oracle only)",
+    "C18": " + tailing from_end on a file with a real read position; poll-before-downstream-done; real-socket from_tcp and real-HTTP from_http_server samples (oracle only); Model/SourceFuture.lean + Props/SourceFuture.lean (a Source whose run() returns a Future: between the end of run() and the wake-up of _run_once a start() is never lost - invariant over all histories, witness for the unrepaired start()) with its own correspondence driving a real tornado-style source atom by atom",
     "C19": " + Kafka histories on the in-memory broker observed for background loops / threads",
     "C20": " + model of failing tasks (Model/DaskFail.lean, Props/C20Fail.lean: equivalence where no stateful node follows a failure, recorded accumulate divergence with witness) compared with both real pipelines; same-named closures, two-branch fan-out, late attachment",
 }
